@@ -513,7 +513,7 @@ class Interp:
                 m = self.class_members(c)
                 if name in m:
                     v = m[name]
-                    if isinstance(v, tuple) and v[0] == "expr":
+                    if isinstance(v, tuple) and len(v) == 2 and v[0] == "expr":
                         v = self.eval_class_const(c, name, v[1])
                         m[name] = v
                     return v, c
@@ -644,6 +644,24 @@ class Interp:
             for st2, vs in self.ev_many(node.values, st1):
                 if isinstance(vs, Exc):
                     yield st2, vs
+                    continue
+                from . import keyed
+
+                if any(not is_z3(k) and keyed.is_special(self, st2, k) for k in ks):
+                    # keys with user-defined == / symbolic tuples: insert one at a time (an equal earlier key is overwritten)
+                    ref = st2.alloc(DictE({}))
+
+                    def put(st3, i):
+                        if i == len(ks):
+                            yield st3, ref
+                            return
+                        for st4, r in self.models.setitem(self, st3, ref, ks[i], vs[i]):
+                            if isinstance(r, Exc):
+                                yield st4, r
+                            else:
+                                yield from put(st4, i + 1)
+
+                    yield from put(st2, 0)
                     continue
                 d = {}
                 for k, v in zip(ks, vs):
